@@ -131,8 +131,8 @@ func newYamlMap(key, value *yaml.Node, offsetLine, offsetColumn int, contentLine
 	for _, child := range value.Content {
 		if ckey != nil {
 			kv := YamlKeyValue{
-				Key:   newYamlNode(ckey, offsetLine, offsetColumn, contentLines, key.Column+2),
-				Value: newYamlNode(child, offsetLine, offsetColumn, contentLines, ckey.Column+2),
+				Key:   newYamlNode(ckey, offsetLine, offsetColumn, contentLines, key.Column+1),
+				Value: newYamlNode(child, offsetLine, offsetColumn, contentLines, ckey.Column+1),
 			}
 			ym.Items = append(ym.Items, &kv)
 			ckey = nil
